@@ -578,6 +578,8 @@ def h_restart_conversation(ctx):
     when = ctx.choice("restart_after_message", [1, 2])
     d = tempfile.mkdtemp(prefix="c03_", dir=c17._TMP if hasattr(c17, "_TMP") else None)
     A, B, G = "4915900000001", "4915900000002", "4915900000001-1400000000@g.us"
+    ent = ST.det_entropy("c03-restart-%s-%s-%s" % (kind, who, when))
+    ent.__enter__()
     try:
         mgr = {"A": c17._manager(os.path.join(d, "a.db"), A), "B": c17._manager(os.path.join(d, "b.db"), B)}
 
@@ -616,11 +618,13 @@ def h_restart_conversation(ctx):
                 restart("A" if who == "sender" else "B")
         return obs
     finally:
+        ent.__exit__()
         for m_ in list(locals().get("mgr", {}).values()):
             c17._close(m_)
         shutil.rmtree(d, ignore_errors=True)
 
 
+@ST.deterministic("c03-h_manager_exception_mapping")
 def h_manager_exception_mapping(ctx):
     """REAL AxolotlManager.decrypt_*: each failure class of the ratchet library is reported as the matching yowsup class
     (duplicate != invalid message != invalid key id != no session) -- the receive layer's reactions depend on it"""
